@@ -95,6 +95,7 @@ type FnExec struct {
 	mutSlices map[ssa.Value]Val
 	waived      []string
 	bufs        map[ssa.Value]*bufRef // local byte buffers (make([]byte, n)) and slices of them
+	mslices     map[ssa.Value]*mslice // local element-wise mutated slices (make([]T, n) filled by index)
 	ins         map[string]string // in(param): content of the buffer region before the call
 	outs        map[string]string // out(param) terms during a call whose callee writes into a buffer argument
 	inheritedPre bool
@@ -115,7 +116,7 @@ func (e *Engine) newFnExec(fn *ssa.Function, con *Contract) *FnExec {
 	fx := &FnExec{e: e, fn: fn, c: newCtx(), con: con, vals: map[ssa.Value]Val{}, reach: map[*ssa.BasicBlock]string{},
 		heapOut: map[*ssa.BasicBlock]Heap{}, heapIn: map[*ssa.BasicBlock]Heap{}, counters: map[string]int{}, loops: map[*ssa.BasicBlock]*loopInfo{},
 		names: map[string][]ssa.Value{}, epochCtr: &n, uncontracted: map[string]bool{}, usedContracts: map[string]bool{}, params: map[string]Val{},
-		mutSlices: map[ssa.Value]Val{}, localNames: map[string]bool{}, bufs: map[ssa.Value]*bufRef{}}
+		mutSlices: map[ssa.Value]Val{}, localNames: map[string]bool{}, bufs: map[ssa.Value]*bufRef{}, mslices: map[ssa.Value]*mslice{}}
 	fx.entry = Heap{vers: map[string]string{}, epoch: 0}
 	fx.key = keyOfFunction(fn)
 	return fx
@@ -378,8 +379,10 @@ func (fx *FnExec) wellTyped(v Val, h *Heap) string {
 		if h != nil {
 			facts = append(facts, sLt(v.L[0], fx.heapVar(h, "$alloc", "Int")), sLe("0", v.L[0]))
 		}
+		facts = append(facts, entryHeapFact(v.L[0]))
 	case *types.Interface:
 		facts = append(facts, sLe("0", v.L[0]))
+		facts = append(facts, entryHeapFact(v.L[1]))
 		if fx.e.closedWorld(v.T) {
 			ids := fx.e.implementors(v.T)
 			alts := []string{sEq(v.L[0], "0")}
@@ -397,6 +400,24 @@ func (fx *FnExec) wellTyped(v Val, h *Heap) string {
 		}
 	}
 	return sAnd(facts...)
+}
+
+// entryHeapFact: a pointer read from the entry version of a heap array at an object that existed at entry
+// points to an object that existed at entry (the entry heap holds no pointers to objects allocated later)
+func entryHeapFact(term string) string {
+	if !strings.HasPrefix(term, "(select ") || !strings.HasSuffix(term, ")") {
+		return tTrue
+	}
+	rest := term[len("(select ") : len(term)-1]
+	sp := strings.IndexByte(rest, ' ')
+	if sp < 0 {
+		return tTrue
+	}
+	arr, idx := rest[:sp], rest[sp+1:]
+	if !strings.HasSuffix(arr, "@0") || !(strings.HasPrefix(arr, "H.") || strings.HasPrefix(arr, "Cell.")) {
+		return tTrue
+	}
+	return sImp(sLt(idx, "$alloc@0"), sLt(term, "$alloc@0"))
 }
 
 func (fx *FnExec) constVal(c *ssa.Const) Val {
@@ -442,6 +463,9 @@ func realLit(f float64) string {
 func (fx *FnExec) val(v ssa.Value) Val {
 	if b, ok := fx.bufs[v]; ok {
 		return fx.materializeBuf(v.Type(), b)
+	}
+	if m, ok := fx.mslices[v]; ok {
+		return fx.materializeMslice(v.Type(), m)
 	}
 	if r, ok := fx.vals[v]; ok {
 		return r
@@ -769,6 +793,12 @@ func (fx *FnExec) load(h *Heap, p Val) Val {
 	et := elemOf(p.T)
 	if p.Loc != nil {
 		switch p.Loc.Kind {
+		case LMutElem:
+			out := Val{T: p.Loc.ElemT}
+			for _, l := range fx.e.leaves(p.Loc.ElemT) {
+				out.L = append(out.L, sSel(fx.heapVar(h, fx.msliceLeafName(p.Loc.Ms, l.Path), arraySort("Int", l.Sort)), p.Loc.Idx))
+			}
+			return out
 		case LBufElem:
 			cur := fx.heapVar(h, p.Loc.Buf.name, "Str")
 			return Val{T: p.Loc.ElemT, L: []string{app("str_at", cur, sAdd(p.Loc.Buf.off, p.Loc.Idx))}}
@@ -805,6 +835,15 @@ func (fx *FnExec) store(h *Heap, p Val, v Val) {
 	et := elemOf(p.T)
 	if p.Loc != nil {
 		switch p.Loc.Kind {
+		case LMutElem:
+			for i, l := range fx.e.leaves(p.Loc.ElemT) {
+				if i < len(v.L) {
+					n := fx.msliceLeafName(p.Loc.Ms, l.Path)
+					srt := arraySort("Int", l.Sort)
+					fx.heapSet(h, n, srt, sSto(fx.heapVar(h, n, srt), p.Loc.Idx, v.L[i]))
+				}
+			}
+			return
 		case LBufElem:
 			fx.bufSet(p.Loc.Buf, p.Loc.Idx, v.L[0])
 			return
@@ -1070,6 +1109,14 @@ func (fx *FnExec) instrMods(in ssa.Instruction, mods map[string]bool) (all bool)
 			mods[n] = true
 		}
 		return false
+	case *ssa.Next:
+		if rng, ok := x.Iter.(*ssa.Range); ok {
+			if n, srt, ok := fx.iterSeenName(rng); ok {
+				mods[n] = true
+				fx.e.heapSort[n] = srt
+			}
+		}
+		return false
 	case *ssa.Alloc, *ssa.MakeMap, *ssa.MakeClosure, *ssa.MakeInterface, *ssa.MakeSlice:
 		mods["$alloc"] = true
 		if a, ok := x.(*ssa.Alloc); ok {
@@ -1154,6 +1201,15 @@ func (fx *FnExec) typeMods(t types.Type, mods map[string]bool) {
 
 func (fx *FnExec) addrMods(addr ssa.Value, mods map[string]bool) bool {
 	if ia, ok := addr.(*ssa.IndexAddr); ok {
+		if ms, ok := ia.X.(*ssa.MakeSlice); ok && mutSliceCandidate(ms) {
+			m := &mslice{name: ms.Name(), et: elemOf(ms.Type())}
+			for _, l := range fx.e.leaves(m.et) {
+				n := fx.msliceLeafName(m, l.Path)
+				mods[n] = true
+				fx.e.heapSort[n] = arraySort("Int", l.Sort)
+			}
+			return false
+		}
 		if n := fx.bufNameOf(ia.X); n != "" {
 			mods[n] = true
 			fx.e.heapSort[n] = "Str"
@@ -1342,6 +1398,63 @@ func isByteSlice(t types.Type) bool {
 	return typeKey(et) == "byte" || typeKey(et) == "uint8"
 }
 
+// mslice: make([]T, n) whose elements are assigned by index before the slice is used as a value. Its content lives in
+// local array variables L.ms.<name>.<leaf>; using the slice as a value takes a snapshot (slices are immutable values).
+type mslice struct {
+	name string
+	len  string
+	et   types.Type
+}
+
+// mutSliceCandidate: every use of the made slice is an element address (stored to / loaded from), len/cap, a return,
+// or a debug reference; and no element store can follow a use as a value on any path (checked dynamically: see store)
+func mutSliceCandidate(x *ssa.MakeSlice) bool {
+	if isByteSlice(x.Type()) || x.Referrers() == nil {
+		return false
+	}
+	stores := 0
+	for _, r := range *x.Referrers() {
+		switch u := r.(type) {
+		case *ssa.IndexAddr:
+			if u.X != ssa.Value(x) || u.Referrers() == nil {
+				return false
+			}
+			for _, rr := range *u.Referrers() {
+				switch w := rr.(type) {
+				case *ssa.Store:
+					if w.Addr != ssa.Value(u) {
+						return false
+					}
+					stores++
+				case *ssa.UnOp, *ssa.DebugRef:
+				default:
+					return false
+				}
+			}
+		case *ssa.Return, *ssa.DebugRef:
+		case *ssa.Call:
+			if b, ok := u.Call.Value.(*ssa.Builtin); !ok || (b.Name() != "len" && b.Name() != "cap") {
+				return false
+			}
+		default:
+			return false
+		}
+	}
+	return stores > 0
+}
+
+func (fx *FnExec) msliceLeafName(m *mslice, path string) string {
+	return "L.ms." + m.name + "." + path
+}
+
+func (fx *FnExec) materializeMslice(t types.Type, m *mslice) Val {
+	out := Val{T: t, L: []string{tFalse, m.len}}
+	for _, l := range fx.e.leaves(m.et) {
+		out.L = append(out.L, fx.heapVar(&fx.cur, fx.msliceLeafName(m, l.Path), arraySort("Int", l.Sort)))
+	}
+	return out
+}
+
 // materializeBuf: the current content of a buffer view as an ordinary (immutable) []byte value
 func (fx *FnExec) materializeBuf(t types.Type, b *bufRef) Val {
 	cur := fx.heapVar(&fx.cur, b.name, "Str")
@@ -1369,6 +1482,10 @@ func (fx *FnExec) bufNameOf(v ssa.Value) string {
 	switch x := v.(type) {
 	case *ssa.MakeSlice:
 		if isByteSlice(x.Type()) {
+			return "L.buf." + x.Name()
+		}
+	case *ssa.Alloc:
+		if _, ok := byteArrayBuffer(x); ok {
 			return "L.buf." + x.Name()
 		}
 	case *ssa.Slice:
